@@ -15,7 +15,7 @@ var opKindsCursorTree = []string{
 
 var moveKinds = []string{
 	"left", "left", "right", "right", "up", "up", "min", "max", "next", "next", "next", "prev", "prev", "prev",
-	"goto", "goto", "clone", "switch", "switch", "inorder", "hasnext", "hasnext", "hasprev", "hasprev",
+	"goto", "goto", "clone", "switch", "switch", "inorder", "inorder", "hasnext", "hasnext", "hasprev", "hasprev",
 	"root", "root",
 }
 
@@ -44,7 +44,12 @@ func genCursorCase(t *rapid.T) CursorCase {
 			Op{Kind: "cursor", A: x, B: rapid.IntRange(0, 9).Draw(t, "cb2")}, Op{Kind: "switch", A: 0}, Op{Kind: "cursor", A: x, B: rapid.IntRange(0, 9).Draw(t, "cb3")})
 	}
 	c.Moves = rapid.SliceOfN(rapid.Custom(func(t *rapid.T) Move {
-		return Move{Kind: rapid.SampledFrom(moveKinds).Draw(t, "mk"), A: rapid.IntRange(0, 500).Draw(t, "ma")}
+		mv := Move{Kind: rapid.SampledFrom(moveKinds).Draw(t, "mk"), A: rapid.IntRange(0, 500).Draw(t, "ma")}
+		if mv.Kind == "inorder" {
+			// most Inorder moves also move a cursor from inside the loop body
+			mv.B = rapid.IntRange(0, 3000).Draw(t, "mb")
+		}
+		return mv
 	}), 0, 60).Draw(t, "moves")
 	return c
 }
